@@ -127,7 +127,7 @@ static void trace_cases(Rng& g, int N) {
     std::vector<int64_t> lens;
     for (int j = 0; j < k; ++j) {
       int n = g.chance(25) ? (int)g.range(1, 2) : (int)g.range(3, 7);
-      if (et == 0 && g.chance(10)) n = 0;  // an empty path is harmless in a Polygon group
+      if (g.chance(10)) n = 0;  // an empty path is skipped whatever the end type
       // distinct consecutive points so that StripDuplicates leaves the length alone
       Path64 p;
       for (int t = 0; t < n; ++t) p.emplace_back(1000 * j + 37 * t + g.range(0, 9), (t % 2 ? 50 : -50) + 11 * t + g.range(0, 9));
@@ -183,7 +183,9 @@ static void branch_cases(Rng& g, int N) {
     ClipperOffset co(ml, 0.25);
     co.join_type_ = (JoinType)jt;
     co.temp_lim_ = (ml <= 1) ? 2.0 : 2.0 / (ml * ml);
-    double gd = (double)g.range(1, 400) / 8.0 * (g.coin() ? 1 : -1);
+    // |group_delta_| >= 1: below that a round join can collapse onto path[j] after rounding and the classification
+    // of the branch from path_out (3 points, middle one == path[j] => concave) would be ambiguous
+    double gd = (double)g.range(8, 400) / 8.0 * (g.coin() ? 1 : -1);
     if (g.chance(3)) gd = 1e-13 * (g.coin() ? 1 : -1);
     co.group_delta_ = gd;
     co.steps_per_rad_ = 10; co.step_sin_ = std::sin(0.1) * (gd < 0 ? -1 : 1); co.step_cos_ = std::cos(0.1);
@@ -226,7 +228,7 @@ static void state_cases(Rng& g, int N) {
       Paths64 ps;
       for (int j = 0; j < k; ++j) {
         int n = g.chance(30) ? (int)g.range(1, 2) : (int)g.range(3, 6);
-        if (et == 0 && g.chance(25)) n = 0;
+        if (g.chance(et == 0 ? 25 : 10)) n = 0;
         Path64 p;
         for (int t = 0; t < n; ++t) p.emplace_back(1000 * j + 5000 * q + 37 * t + g.range(0, 9), (t % 2 ? 50 : -50) + 11 * t + g.range(0, 9));
         if (g.coin()) std::reverse(p.begin(), p.end());
